@@ -587,7 +587,7 @@ func (rpc *RPC) split(limit int) iter.Seq[RPC] {
 const pbFieldNumberLT15Size = 1
 
 func sovRpc(x uint64) (n int) {
-	return (bits.Len64(x) + 6) / 7
+	return (bits.Len64(x|1) + 6) / 7
 }
 
 func sizeOfEmbeddedMsg(
